@@ -145,7 +145,16 @@ fn check_excess_parentheses(internal_expression: &Expression, context: Expressio
                 }
             }
 
-            check_excess_parentheses(expression, context)
+            // The parentheses in `-(-x)` are kept [they are added around a nested unary minus]: look through them,
+            // so that `(- -...)` and its formatted form `(-(-...))` are treated alike
+            let operand = match &**expression {
+                Expression::Parentheses {
+                    expression: inner, ..
+                } if matches!(**inner, Expression::UnaryOperator { .. }) => inner,
+                _ => expression,
+            };
+
+            check_excess_parentheses(operand, context)
         }
         // Don't bother removing them if there is a binop, as they may be needed. TODO: can we be more intelligent here?
         Expression::BinaryOperator { .. } => false,
